@@ -25,7 +25,7 @@ RULE = ('case = device tables of 0..12 entries (all types), CRC values incl. 0, 
         'file, offset/garble) evaluated.')
 ASSUMPTIONS = ['a crash during the cache write leaves a prefix of the intended file content',
                'cache files that are valid JSON but semantically wrong are outside the statement']
-REQUIRED = ['mon.connects_with_a_parameter_notification_before_the_tables', 'mon.cached_connects', 'mon.cache_hits', 'mon.truncation_offsets', 'mon.truncated_connects',
+REQUIRED = ['mon.two_firmwares_connecting_at_once_on_one_cache_directory', 'mon.connects_with_a_parameter_notification_before_the_tables', 'mon.cached_connects', 'mon.cache_hits', 'mon.truncation_offsets', 'mon.truncated_connects',
             'mon.garbled_files', 'mon.crc_collision_cases', 'mon.ro_dir_audited', 'mon.audit_events_seen',
             'mon.files_vanished_before_connect', 'mon.files_with_a_field_missing',
             'mon.crc_collision_with_one_empty_table', 'mon.store_load_round_trips',
@@ -79,6 +79,7 @@ def cases(tier, seed):
                     'proto': rnd.choice((10, 10, 3)), 'config': CONFIGS[i % len(CONFIGS)], 'crc': crc_mode,
                     'connect_samples': 6 if tier == 'quick' else 40, 'latin': i % 4 == 0})
     out.append({'seed': seed * 31 + 7, 'part': 'storeload'})
+    out += [{'seed': seed * 1013 + 700 + i, 'part': 'shared'} for i in range(24 if tier == 'quick' else 160)]
     out += [{'seed': seed * 1009 + 400 + i, 'part': 'history'} for i in range(16 if tier == 'quick' else 120)]
     # an empty table whose checksum collides with the (non-empty) table of the other kind
     for j, (nl, npar, cfg) in enumerate(((0, 5, 'rw'), (4, 0, 'rw'), (0, 3, 'ro+rw'), (6, 0, 'none'), (0, 0, 'rw'), (0, 1, 'ro'))):
@@ -285,9 +286,98 @@ def run_history(desc, ctx):
         shutil.rmtree(base, ignore_errors=True)
 
 
+def run_shared(desc, ctx):
+    """Two Crazyflie objects with different firmwares share one read-write cache directory (a swarm) and connect at
+    the same time, pre-empted at statement level: afterwards every cache file holds the table of the firmware that
+    announces its checksum, and fresh objects served from the cache see their own firmware's tables."""
+    from vf import detsched as ds, simcf, simlink
+    from cflib.crazyflie import Crazyflie
+    rnd = random.Random(desc['seed'])
+    profs = [gen.profile(desc['seed'] + 31 * i, rnd.randint(2, 9), rnd.randint(2, 9), proto=10) for i in range(2)]
+    devs = [simcf.SimCF(p) for p in profs]
+    base = tempfile.mkdtemp(prefix='vf_c11s_')
+    rw = os.path.join(base, 'rw')
+    uris = ['sim://c11s%d' % i for i in range(2)]
+    for u, d in zip(uris, devs):
+        simlink.SIMS[u] = simlink.LinkSpec(d, latency=rnd.choice((0.0, 0.001)))
+    ob = {'tables': {}}
+
+    def fn(s):
+        for d in devs:
+            d.now = lambda: s.now
+        import threading
+
+        # (the objects are constructed one after the other, as Swarm / CachedCfFactory does; constructing them
+        # concurrently on a directory that does not exist yet can fail in os.makedirs - outside the statement)
+        cfs = [Crazyflie(rw_cache=rw) for _ in range(2)]
+
+        def member(i):
+            cf = cfs[i]
+            ev = ds.Event()
+            cf.connected.add_callback(lambda u: ev.set())
+            cf.connection_failed.add_callback(lambda u, m: ev.set())
+            cf.open_link(uris[i])
+            ev.wait(300.0)
+            s.sleep(0.2)
+            ob['tables'][('first', i)] = (oracles.snapshot_toc(cf.log.toc), oracles.snapshot_toc(cf.param.toc))
+            cf.close_link()
+        ths = [threading.Thread(target=member, args=(i,)) for i in range(2)]
+        for t in ths:
+            t.start()
+        for t in ths:
+            t.join()
+        s.sleep(0.3)
+        for i in range(2):
+            cf = Crazyflie(rw_cache=rw)
+            ev = ds.Event()
+            cf.connected.add_callback(lambda u: ev.set())
+            cf.connection_failed.add_callback(lambda u, m: ev.set())
+            cf.open_link(uris[i])
+            ev.wait(300.0)
+            s.sleep(0.2)
+            ob['tables'][('later', i)] = (oracles.snapshot_toc(cf.log.toc), oracles.snapshot_toc(cf.param.toc))
+            cf.close_link()
+    try:
+        _, abort, sch = harness.sched_case(fn, seed=desc['seed'], policy='random', line_p=(0.0, 0.1, 0.3)[desc['seed'] % 3], horizon=2000.0,
+                                           max_steps=12_000_000)
+        ctx.evals()
+        ctx.count('mon.two_firmwares_connecting_at_once_on_one_cache_directory')
+        ctx.count('mon.statement_level_preemption_points', sch.line_points)
+        ctx.nontrivial(('shared', desc['seed'], sch.signature()))
+        rp = dict(desc)
+        if abort is not None:
+            ctx.violate('cache:shared:connection-hangs', {'abort': str(abort)}, replay=rp)
+            return
+        for (name, exc, tb) in sch.deaths:
+            ctx.violate('cache:shared:thread-died:%s' % exc.split('(')[0], {'traceback': tb}, replay=rp)
+        for (when, i), (lg, pm) in sorted(ob['tables'].items()):
+            for kind, got, exp in (('log', lg, oracles.expected_log(devs[i])), ('param', pm, oracles.expected_param(devs[i]))):
+                for m, d in oracles.diff_table(kind, got, exp):
+                    ctx.violate('cache:shared:%s-connection:%s' % (when, m), dict(d, firmware=i), replay=rp)
+        from cflib.crazyflie.toc import Toc
+        from cflib.crazyflie.toccache import TocCache
+        for i, p in enumerate(profs):
+            for kind, crc, exp in (('log', p['log_crc'], oracles.expected_log(devs[i])), ('param', p['param_crc'], oracles.expected_param(devs[i]))):
+                data = TocCache(rw_cache=rw).fetch(crc)
+                if data:
+                    t = Toc()
+                    t.toc = data
+                    bad = [b for b in oracles.diff_table(kind, oracles.snapshot_toc(t), exp) if 'persistent' not in b[0]]
+                    if bad:
+                        ctx.violate('cache:shared:file-holds-a-table-its-firmware-never-announced:' + bad[0][0],
+                                    dict(bad[0][1], checksum='%08X' % crc, firmware=i), replay=rp)
+        left = [f for f in os.listdir(rw) if not f.endswith('.json')] if os.path.isdir(rw) else []
+        if left:
+            ctx.count('obs.other_files_left_in_the_cache_directory', len(left))
+    finally:
+        shutil.rmtree(base, ignore_errors=True)
+
+
 def run(desc, ctx):
     harness.init()
     worker_init()
+    if desc.get('part') == 'shared':
+        return run_shared(desc, ctx)
     if desc.get('part') == 'storeload':
         return run_store_load(desc, ctx)
     if desc.get('part') == 'history':
